@@ -268,7 +268,9 @@ struct nng_aio {
 	// Shadow state for the exactly-once monitor; protected by the
 	// expire queue mutex like the state it shadows.
 	bool     a_v_active; // nni_aio_start succeeded, not yet finished
-	unsigned a_v_done;   // completions since the operation began
+	unsigned a_v_done;   // completions recorded, callback not yet begun
+	nni_cb   a_v_cb;     // the real completion callback
+	void    *a_v_arg;
 #endif
 };
 
